@@ -186,7 +186,7 @@ def dyn_corpus(rng, n):
         sib = rng.choice(['%s 2' % t1, '%s 2' % t2, '!del {z: 1}', '%s [5]' % t1, "!metadata{{'note': '%s'}} 2" % note])
         cousin = rng.choice(['{d: [%s 3, 4]}' % t1, '{d: [%s 3, 4], e: %s {f: 1}}' % (t2, t1), '[%s {g: 1}, 2]' % t1])
         pathn = rng.choice([
-            '!path:cwd [runs, !xref name]', '!path:cwd [runs, logs]', '!path:file [x, %s y]' % t1, '!path:abs [/tmp, !xref name, out]',
+            '!path:cwd [runs, !xref name]', '!path:cwd [runs, logs]', '!path:file [x, %s y]' % t1, '!path:abs(/tmp) [!xref name, out]',
             '!path:parent(1) [cfg, !xref name]', "!path:cwd{{'priority': %d}} [runs, !xref name]" % p1,
         ])
         ents = [('a', two), ('b', sib), ('c', cousin), ('root', pathn), ('name', 'exp1')]
